@@ -5,8 +5,9 @@ Every case is run on the implementation (harness/go/c13.go) and on the extracted
 (harness/ml/cmd_c13.ml); the model's line carries, after " | ", what the proved specification
 (coq/Spec/C13.v) says about the case.  Three comparisons:
   tie     implementation line == model line                      (any difference: violation)
-  oracle  implementation observation == specification            (difference: known finding when the case
-          has exactly the shape of a listed defect -- the Coq guard of the _partial theorem -- else violation)
+  oracle  implementation observation == specification            (difference: violation; for the file chooser a
+          known finding when the case has exactly the shape of the listed dir/... defect -- the Coq guard of the
+          _partial theorem.  D30, registry.norev-vs-rev, is fixed: a recurrence is a violation)
   metamorphic (implementation only) final bindings of all permutations of a header set with pairwise
           distinct (kind, name, revision) are equal."""
 import itertools
@@ -208,17 +209,10 @@ def judge(res, c, g, m, stats):
             stats["registry_outside_claim"] += 1
             return
         go = fields(g)
-        v, sv, d30 = lst(go.get("v", "-")), lst(spec["sv"]), lst(spec["d30"])
-        for i, (a, b) in enumerate(zip(v, sv)):
-            if a != b:
-                if d30[i] == "1" and a == "0" and b == "1":
-                    stats["d30_hits"] += 1
-                    res.known("registry.norev-vs-rev", c)
-                else:
-                    res.violation("registry verdict of add #%d differs from the specification: %s impl=%s spec=%s" %
-                                  (i, c[:300], go.get("v"), spec["sv"]),
-                                  dict(kind="oracle", case=c, impl=g, model=m))
-                    return
+        if go.get("v", "-") != spec["sv"]:
+            res.violation("registry verdicts differ from the specification: %s impl=%s spec=%s" %
+                          (c[:300], go.get("v"), spec["sv"]), dict(kind="oracle", case=c, impl=g, model=m))
+            return
         if lst(go.get("f", "-"), ",") != lst(spec["sf"], ","):
             res.violation("registry lookup differs from the specification: %s impl=%s spec=%s" %
                           (c[:300], go.get("f"), spec["sf"]), dict(kind="oracle", case=c, impl=g, model=m))
@@ -279,7 +273,7 @@ def run(res, tier, seed, proof):
     ff = gen_findfile(tier, rnd)
     cases = reg + ff
     go, ml = run_both(cases)
-    stats = dict(registry_outside_claim=0, findfile_outside_claim=0, d30_hits=0, dots_hits=0, perm_groups=0, perm_pairs=0)
+    stats = dict(registry_outside_claim=0, findfile_outside_claim=0, dots_hits=0, perm_groups=0, perm_pairs=0)
     mism = 0
     for c, g, m in zip(cases, go, ml):
         if g != canon_ml(m):
@@ -337,7 +331,7 @@ def replay(rep, res):
     print("model:", ml[0])
     if go[0] != canon_ml(ml[0]):
         return 1
-    stats = dict(registry_outside_claim=0, findfile_outside_claim=0, d30_hits=0, dots_hits=0)
+    stats = dict(registry_outside_claim=0, findfile_outside_claim=0, dots_hits=0)
     judge(res, c, go[0], ml[0], stats)
     if rep.get("other"):
         cs = [c, rep["other"]]
